@@ -73,7 +73,7 @@ func cmdChild(args []string) error {
 		return err
 	}
 	defer out.Close()
-	e := &env{dir: *tmp, depth: *depth}
+	e := &env{dir: *tmp, depth: *depth, statusTable: os.Getenv("HV_C20_STATUS_TABLE") == "1"}
 	os.MkdirAll(e.dir, 0o755)
 	for idx := *from; idx < len(cases); idx += *stride {
 		fmt.Fprintf(out, "{\"begin\": %d}\n", idx)
